@@ -113,7 +113,13 @@ def check_case(case: Dict[str, Any], col: Collector, count: bool = True) -> None
         col.count(case, labs, nontrivial(labs))
     approx = m["approx"]
     nk_fail = nodekind(case["nodes"][m["fail"]["index"]]) if not m["ok"] else None
-    if m["ok"] and not r["ok"]:
+    name_len = approx and ((not r["ok"] and isinstance(r["exc"], OSError) and getattr(r["exc"], "errno", None) == 36)
+                           or (not m["ok"] and m["fail"]["exc"] == "OSError"))
+    if name_len and m["ok"] != r["ok"]:
+        # numpy scalars render longer (np.float64(...)) than the floats of the reference: whether a templated file
+        # name crosses the 255-byte limit is then an artefact of an undocumented repr, not of the semantics
+        col.exclude(1, "file_name_length_depends_on_numpy_repr")
+    elif m["ok"] and not r["ok"]:
         idx = len(r["published"])
         col.add("unexpected_failure", {"exc": r["exc_type"], "node": nodekind(case["nodes"][min(idx, len(case["nodes"]) - 1)])},
                 case, observed={"exc": r["exc_type"], "msg": str(r["exc"])[:200], "index": idx}, expected="success")
